@@ -243,6 +243,16 @@ def write_replay(prop, payload):
     return path
 
 
+def default_known_match(entry, clause, verdict):
+    """A known finding names the failing clause (exact, or a prefix ending in ':') and may
+    require tags that the driver attaches to the case (the input class)."""
+    ec = entry.get("clause", "")
+    if not (clause == ec or (ec.endswith(":") and clause.startswith(ec))):
+        return False
+    tags = set(verdict.get("tags", []))
+    return all(t in tags for t in entry.get("requires_tags", []))
+
+
 class Report:
     """Collects obligations, verdicts and produces evidence + exit status."""
 
@@ -336,7 +346,7 @@ class Report:
                     if known_match and known_match(e, clause, v, self.first_cases.get(v["i"])):
                         hit = e
                         break
-                    if not known_match and e.get("clause") == clause:
+                    if not known_match and default_known_match(e, clause, v):
                         hit = e
                         break
                 if hit:
